@@ -280,6 +280,11 @@ def combine1fiber(inloglam, objflux, newloglam, objivar=None, verbose=False,
         #
         if saved_objivar is not None:
             objivar = saved_objivar * (objivar > 0)
+        if objivar is None:
+            #
+            # No inverse variance supplied: all pixels have equal weight.
+            #
+            objivar = np.ones(inloglam.shape, dtype=inloglam.dtype)
         #
         # Combine inverse variance and pixel masks.
         #
